@@ -22,7 +22,10 @@ def values(rnd):
         ("SUMMARY", "text with ; and ,"), ("X-ROOM-1", "a"), ("X-ROOM-01", "b"), ("X-ROOM-10", "c"), ("PRIORITY", 5), ("GEO", (1.5, -2.25)),
         ("DTSTART", datetime(2024, 3, 1, 10, tzinfo=z)), ("DTEND", datetime(2024, 3, 1, 11, tzinfo=timezone.utc)), ("DTSTAMP", datetime(2024, 1, 1)),
         ("RDATE", [date(2024, 3, 2), date(2024, 3, 9)]), ("EXDATE", [datetime(2024, 3, 2, 10, tzinfo=z)]),
-        ("RDATE", [(datetime(2024, 3, 3, 10), timedelta(hours=1))]), ("RRULE", {"freq": "weekly", "byday": ["mo", "we"], "count": 4}),
+        ("RDATE", [(datetime(2024, 3, 3, 10), timedelta(hours=1))]),
+        # lists whose members disagree (zones, value types): which one names the list must not depend on the hash seed
+        ("EXDATE", [datetime(2024, 3, 2, 10, tzinfo=z), datetime(2024, 3, 3, 10, tzinfo=ZoneInfo("America/New_York")), datetime(2024, 3, 4, 10, tzinfo=ZoneInfo("Asia/Tokyo"))]),
+        ("RRULE", {"freq": "weekly", "byday": ["mo", "we"], "count": 4}),
         ("ATTENDEE", "mailto:a@example.com"), ("ATTENDEE", "mailto:b@example.com"), ("CATEGORIES", ["x", "y"]), ("DURATION", timedelta(hours=2)),
         ("UID", "u1"), ("COMMENT", "c1"), ("COMMENT", "c2"), ("URL", "http://example.com/x"), ("SEQUENCE", 3),
     ]
